@@ -150,7 +150,7 @@ func c14agg(c *Ctx) {
 	}
 
 	// ---- clamps of the unit conversions (the names of the package's bounds carry the intent)
-	r.Rule("CLAMP(unit conversions): in system.MilliCPUToShares / MilliCPUToQuota a return of the value of a package constant whose name contains Min happens only where the computed amount compared below that constant (or, for shares, the request was non-positive), of one whose name contains Max only where it compared above it; -1 (unlimited) is returned exactly where the computed quota compared <= 0; the computed amount itself is returned only where it compared at or above every Min bound and at or below every Max bound of the function")
+	r.Rule("CLAMP(unit conversions): in system.MilliCPUToShares / MilliCPUToQuota a return of the value of a package constant whose name contains Min happens only where the computed amount compared below that constant (or, for shares, the request was non-positive), of one whose name contains Max only where it compared above it; -1 (unlimited) is returned exactly where the computed quota compared <= 0; the computed amount itself is returned only where it compared at or above every Min bound and at or below every Max bound of the function; a comparison with a Min/Max bound counts only when its other operand is the converted amount (a product or quotient), not the unconverted input")
 	pk := c.P.Pkg("pkg/koordlet/util/system")
 	if pk == nil {
 		r.Unknown("ANCHOR", "pkg/koordlet/util/system", "", "package not found")
@@ -207,6 +207,22 @@ func c14agg(c *Ctx) {
 				}
 				if kv != k {
 					continue
+				}
+				// a bound of the result is compared with the converted amount, not with the unconverted input
+				if k == minV || (hasMax && k == maxV) {
+					subj := rel.X
+					if _, isK := constIntOf(subj); isK {
+						subj = rel.Y
+					}
+					converted := false
+					for x := range backwardAll(subj) {
+						if b2, isB := x.(*ssa.BinOp); isB && (b2.Op == token.MUL || b2.Op == token.QUO) {
+							converted = true
+						}
+					}
+					if !converted {
+						continue
+					}
 				}
 				for _, o := range ops {
 					if o == op {
